@@ -903,6 +903,11 @@ class Interp:
             if m_ in ("sort", "sort_unstable") and all(x.deref().k == "int" for x in cur.v):
                 env[tgt] = Val("list", sorted(cur.v, key=lambda x: x.deref().v), cur.extra)
                 return UNIT
+        if fn == "std::path::PathBuf::push" and len(args) > 1 and cur.k in ("str", "unknown"):
+            a1 = args[1].deref()
+            part = a1.v if a1.k == "str" else repr(a1)
+            env[tgt] = vstr("%s/%s" % (cur.v, part)) if (cur.k == "str" and a1.k == "str") else Val("unknown", "%s/%s" % (cur.v if cur.k == "str" else (cur.v or ""), part))
+            return UNIT
         if fn == "alloc::vec::Vec::pop" and cur.k == "list":
             if cur.v:
                 env[tgt] = Val("list", list(cur.v[:-1]))
